@@ -607,3 +607,67 @@ Proof.
   exact (Proofs.Compose.declares_serves g L recs D q n ecs max x Hn Hl Hq He Hs).
 Qed.
 End Composed.
+
+(* ================================================================== one Wrs per pick versus Go's one Wrs per target
+   db.AdditionalSectionForRecords uses ONE Wrs{MaxAnswers: 1} per NS / MX target for both families
+   (Model/Wrs.additional: rows of a family are added only if that family is wanted; the AAAA record is
+   emitted before the A record).  [realise] runs one Wrs per IPick, i.e. per family.  Since Wrs.Add touches
+   only the slots of the record's own family the two agree: the realised AAAA and A picks of a target are what
+   Model/Wrs.additional returns on the target's rows (the AAAA candidates and the A candidates with their keys,
+   in any interleaving that keeps the order inside a family - here AAAA rows first) - so
+   C11_additional_max_one speaks about the realised records verbatim. *)
+Section PairAdditional.
+Variable K : Type.
+Variable klt : K -> K -> bool.
+Variable kpos : K -> bool.
+Variable keyof : N -> N -> K.
+
+Lemma fam_items_app : forall q (a b : list (Model.Wrs.row K payload)),
+  Model.Wrs.fam_items q (a ++ b) = Model.Wrs.fam_items q a ++ Model.Wrs.fam_items q b.
+Proof. intros. unfold Model.Wrs.fam_items. rewrite filter_app, map_app. reflexivity. Qed.
+
+Lemma fam_items_pick_other : forall d ty q c, ty <> q ->
+  Model.Wrs.fam_items q (pick_rows K keyof d ty c) = [].
+Proof.
+  intros d ty q c Hne. unfold pick_rows, Model.Wrs.fam_items.
+  induction (index_from 0 c) as [|p l IH]; [reflexivity|]. cbn [map filter Model.Wrs.rq].
+  apply N.eqb_neq in Hne. rewrite Hne. exact IH.
+Qed.
+
+Lemma recs_feed_family : forall max d ty c, ty = 1 \/ ty = 28 ->
+  Model.Wrs.recs_or_nil kpos (Model.Wrs.feed klt max (pick_rows K keyof d ty c)) ty =
+  map snd (Model.Wrs.live kpos (Model.Wrs.run klt max (Model.Wrs.fam_items ty (pick_rows K keyof d ty c)))).
+Proof.
+  intros max d ty c Hty. destruct (Proofs.Wrs.feed_spec K klt payload max (pick_rows K keyof d ty c)) as (_ & H4 & H6 & _).
+  unfold Model.Wrs.recs_or_nil, Model.Wrs.records.
+  destruct Hty; subst ty; cbn [N.eqb Pos.eqb Model.Wrs.TypeA Model.Wrs.TypeAAAA]; [rewrite H4|rewrite H6]; reflexivity.
+Qed.
+
+Theorem pick_pair_is_additional : forall d6 d4 t qc c6 c4 (want4 want6 : bool) r6 r4 wt,
+  Model.Wrs.additional klt kpos want4 want6 (pick_rows K keyof d6 28 c6 ++ pick_rows K keyof d4 1 c4) = (r6, r4, wt) ->
+  (if want6 then realise_pick K klt kpos keyof 1 d6 t 28 qc c6 else []) =
+    map (fun p : payload => mkRR t 28 qc (cand_ttl (snd p)) (cand_addr (snd p))) r6 /\
+  (if want4 then realise_pick K klt kpos keyof 1 d4 t 1 qc c4 else []) =
+    map (fun p : payload => mkRR t 1 qc (cand_ttl (snd p)) (cand_addr (snd p))) r4.
+Proof.
+  intros d6 d4 t qc c6 c4 want4 want6 r6 r4 wt H. unfold Model.Wrs.additional in H.
+  destruct (want4 || want6) eqn:Ew.
+  2:{ inversion H; subst. destruct want4, want6; try discriminate. split; reflexivity. }
+  rewrite Proofs.Wrs.add_parse_fold in H.
+  set (rows := pick_rows K keyof d6 28 c6 ++ pick_rows K keyof d4 1 c4) in *.
+  set (flt := filter _ rows) in H.
+  change (Proofs.Wrs.fed_from K klt payload (Model.Wrs.wrs_new 1) flt) with (Model.Wrs.feed klt 1 flt) in H.
+  destruct (Proofs.Wrs.feed_spec K klt payload 1 flt) as (_ & H4 & H6 & _).
+  unfold Model.Wrs.recs_or_nil, Model.Wrs.records in H. cbn [N.eqb Pos.eqb Model.Wrs.TypeA Model.Wrs.TypeAAAA] in H.
+  rewrite H4, H6 in H. unfold flt in H.
+  rewrite !Proofs.Wrs.fam_items_filter_want in H by (auto). cbn [N.eqb Pos.eqb Model.Wrs.TypeA Model.Wrs.TypeAAAA] in H.
+  assert (E6 : Model.Wrs.fam_items 28 rows = Model.Wrs.fam_items 28 (pick_rows K keyof d6 28 c6)).
+  { unfold rows. rewrite fam_items_app, (fam_items_pick_other d4 1 28 c4) by discriminate. apply app_nil_r. }
+  assert (E4 : Model.Wrs.fam_items 1 rows = Model.Wrs.fam_items 1 (pick_rows K keyof d4 1 c4)).
+  { unfold rows. rewrite fam_items_app, (fam_items_pick_other d6 28 1 c6) by discriminate. reflexivity. }
+  change Model.Wrs.TypeAAAA with 28 in H. change Model.Wrs.TypeA with 1 in H.
+  rewrite E6, E4 in H. inversion H; subst r6 r4. clear H.
+  unfold realise_pick. rewrite !recs_feed_family by auto.
+  split; [destruct want6|destruct want4]; reflexivity.
+Qed.
+End PairAdditional.
